@@ -1541,3 +1541,40 @@ func ruleSelectionResetOnDelete(c *report.Ctx) {
 		}
 	}
 }
+
+// ruleNoMemoryTipUnderUpdate (C01/C18/C06): the follower's in-memory tip is not written by code that runs inside a write transaction.
+func ruleNoMemoryTipUnderUpdate(c *report.Ctx) {
+	p := c.P
+	c.Rule("memory-tip-outside-transaction", "nothing reachable from the closure of a write transaction stores NtfnsHandler.bestBlock: the in-memory tip moves only after the commit succeeded, so a failed commit is retried through the reorg path", 5)
+	nh := p.Type(pkgWallet, "NtfnsHandler")
+	if nh == nil {
+		c.Lost("masswallet.NtfnsHandler")
+		return
+	}
+	_, _, us, _ := updateSites(c)
+	for _, s := range us {
+		if s.Closure == nil || s.Closure.Blocks == nil {
+			continue
+		}
+		pk := an.FuncPkg(s.Caller)
+		if pk == nil || pk.Path() != pkgWallet {
+			continue
+		}
+		reached, parent := p.ReachNil([]*ssa.Function{s.Closure}, an.ReachOpts{})
+		bad := false
+		var fs []*ssa.Function
+		for f := range reached {
+			fs = append(fs, f)
+		}
+		sort.Slice(fs, func(i, j int) bool { return sk(fs[i]) < sk(fs[j]) })
+		for _, f := range fs {
+			for _, st := range fieldStores(f, nh, "bestBlock") {
+				bad = true
+				c.Fail(sk(s.Closure)+"~>"+sk(f)+":bestBlock=", "the in-memory tip is written inside the write transaction started by "+sk(s.Caller)+": when the commit fails the handler believes it is one block further than the database, the next tip is applied on the direct path and rejected by SetSyncedTo, and block processing stalls until restart", posOf(c, st), p.Witness(parent, f)...)
+			}
+		}
+		if !bad {
+			c.OK(sk(s.Closure), "no store to bestBlock reachable", posOf(c, s.Site))
+		}
+	}
+}
